@@ -112,6 +112,19 @@ func GenC10(verifSeed uint64, run int) *Scenario {
 			s["type"] = "bogus"
 		})})
 	}
+	// dpkg-sig stores the signature in the ar member _gpg<type>: a type that
+	// cannot be stored under that name (an ar member name holds 16 bytes, no
+	// slash) is an invalid signature type
+	for _, bad := range [][2]string{{"too-long-for-the-ar-member-name", "builder-release"}, {"contains-a-slash", "build/er"}} {
+		kind, val := bad[0], bad[1]
+		for _, sign := range []string{"", "callback"} {
+			plan.Cases = append(plan.Cases, Case{Format: "deb", Sign: sign, Class: "sigtype", Invalid: kind, Config: variant(func(m map[string]any) {
+				sg := subMap(subMap(m, "deb"), "signature")
+				sg["method"] = "dpkg-sig"
+				sg["type"] = val
+			})})
+		}
+	}
 	// apk key name unset and maintainer without an address
 	plan.Cases = append(plan.Cases, Case{Format: "apk", Class: "apkkeyname", Invalid: "no-address", Config: variant(func(m map[string]any) {
 		delete(subMap(subMap(m, "apk"), "signature"), "key_name")
